@@ -32,14 +32,14 @@ import (
 )
 
 type C15Case struct {
-	N       int      `json:"n"`               // number of nodes
-	Mult    []int    `json:"mult"`            // link multiplicity for each pair (i<j) in lexicographic order
-	RawLeaf bool     `json:"rawleaf"`         // the last node is a raw block
-	Sel     string   `json:"sel"`             // all, depth1, depth2, field-a
-	Writer  string   `json:"writer"`          // v2-selective, v2-traversev1, v2-tofile, v1-writecar, v1-selective, v1-prepare-dump
-	Opts    drv.Opts `json:"opts"`            // AllowDup = link-visit-once off (v2); paddings; codec; NoIndex
+	N       int      `json:"n"`                // number of nodes
+	Mult    []int    `json:"mult"`             // link multiplicity for each pair (i<j) in lexicographic order
+	RawLeaf bool     `json:"rawleaf"`          // the last node is a raw block
+	Sel     string   `json:"sel"`              // all, depth1, depth2, field-a
+	Writer  string   `json:"writer"`           // v2-selective, v2-traversev1, v2-tofile, v1-writecar, v1-selective, v1-prepare-dump
+	Opts    drv.Opts `json:"opts"`             // AllowDup = link-visit-once off (v2); paddings; codec; NoIndex
 	Budget  uint64   `json:"budget,omitempty"` // MaxTraversalLinks (0 = none)
-	Once    bool     `json:"once,omitempty"`  // root module: TraverseLinksOnlyOnce
+	Once    bool     `json:"once,omitempty"`   // root module: TraverseLinksOnlyOnce
 }
 
 // dag-cbor by hand: map of single-letter link fields plus an integer "z"
